@@ -5,6 +5,7 @@ package main
 
 import (
 	"bytes"
+	"fmt"
 	"reflect"
 	"regexp"
 	"strconv"
@@ -75,7 +76,9 @@ func resPMT(p psi.PMT, err error) Val {
 	if err != nil {
 		return VErr(errCode(err))
 	}
-	return VOk(vpmt(p))
+	// what the decoded PMT hands out is kept until the op replies, and its getters are asked twice (stable.go)
+	keepPMT("decoded PMT", p)
+	return VOk(twice("PMT getters", func() Val { return vpmt(p) }))
 }
 
 var pidListRe = regexp.MustCompile(`\[([0-9 -]*)\]`)
@@ -180,8 +183,12 @@ func init() {
 			pids = append(pids, v.Int())
 		}
 		pidsBefore := append([]int{}, pids...)
-		r := try(func() Val {
+		call := 0
+		run := func() Val {
+			call++
 			out, err := psi.FilterPMTPacketsToPids(pkts, pids)
+			// what the first call returned is kept while the same input packets are filtered again (stable.go)
+			keepPkts(fmt.Sprintf("packets returned by FilterPMTPacketsToPids call %d", call), out)
 			ev := VL()
 			if err != nil {
 				if c := errCode(err); c != 99 {
@@ -209,7 +216,8 @@ func init() {
 				pv = VL(Val{K: 2, L: l})
 			}
 			return VOk(VL(pv, ev))
-		})
+		}
+		r := same2("FilterPMTPacketsToPids on the same input packets", try(run), try(run))
 		ch := 0
 		for i, p := range pkts {
 			if !bytes.Equal(p[:], snap[i]) {
@@ -224,15 +232,16 @@ func init() {
 		return VL(r, VI(int64(ch)))
 	})
 	register("pmt.remove", func(a []Val) Val {
-		p, err := psi.NewPMT(a[0].B)
+		p, err := psi.NewPMT(keep("input of NewPMT", append([]byte{}, a[0].B...)))
 		if err != nil {
 			return VErr(errCode(err))
 		}
+		keepPMT("decoded PMT", p)
 		rm := []int{}
 		for _, v := range a[1].L {
 			rm = append(rm, v.Int())
 		}
-		p.RemoveElementaryStreams(rm)
+		p.RemoveElementaryStreams(keepInts("argument of RemoveElementaryStreams", rm))
 		q := []Val{}
 		for _, v := range a[2].L {
 			q = append(q, VBool(p.PIDExists(v.Int())))
@@ -265,4 +274,120 @@ func init() {
 		return VOk(VL(Val{K: 2, L: q1}, Val{K: 2, L: q2}, Val{K: 2, L: q3}, Val{K: 2, L: q4}))
 	})
 	register("pmt.computecrc", func(a []Val) Val { return VB(gots.ComputeCRC(a[0].B)) })
+}
+
+// keepPMT records what a decoded PMT handed out: the PID list and every descriptor body (they alias the bytes
+// the PMT was decoded from), so that a later call on ANY object that rewrites them is noticed (stable.go)
+func keepPMT(label string, p psi.PMT) {
+	keepInts(label+".Pids()", p.Pids())
+	for i, e := range p.ElementaryStreams() {
+		for j, d := range e.Descriptors() {
+			keep(fmt.Sprintf("%s stream %d descriptor %d body", label, i, j), descBody(d))
+		}
+	}
+}
+
+func pidsOf(v Val) []int {
+	out := []int{}
+	for _, x := range v.L {
+		out = append(out, x.Int())
+	}
+	return out
+}
+
+func init() {
+	// pmt.hist <payload> <script>: ONE decoded PMT object observed the way a long-lived caller does.
+	//   [0 [pid*]]  PIDExists and IsPidForStreamWherePresentationLagsEbp of every pid (each asked twice)
+	//   [1 [pid*]]  RemoveElementaryStreams
+	//   [2]         the caller keeps the list returned by ElementaryStreams() (replay aid, see notes/aliasing.md A2)
+	// reply [0 [view0 [stepresult view]*]]: every getter after every step
+	register("pmt.hist", func(a []Val) Val {
+		in := append([]byte{}, a[0].B...)
+		in = in[:len(in):len(in)]
+		keep("input of NewPMT", in)
+		p, err := psi.NewPMT(in)
+		if err != nil {
+			return VErr(errCode(err))
+		}
+		keepPMT("decoded PMT", p)
+		out := []Val{twice("PMT getters", func() Val { return vpmt(p) })}
+		for _, st := range a[1].L {
+			var r Val
+			switch st.L[0].Int() {
+			case 0:
+				ex, lg := []Val{}, []Val{}
+				for _, pid := range pidsOf(st.L[1]) {
+					pid := pid
+					ex = append(ex, twice("PIDExists", func() Val { return VBool(p.PIDExists(pid)) }))
+					lg = append(lg, twice("IsPidForStreamWherePresentationLagsEbp", func() Val {
+						return VBool(p.IsPidForStreamWherePresentationLagsEbp(pid))
+					}))
+				}
+				r = VL(Val{K: 2, L: ex}, Val{K: 2, L: lg})
+			case 1:
+				rm := pidsOf(st.L[1])
+				held := keepInts("argument of RemoveElementaryStreams", rm)
+				p.RemoveElementaryStreams(held)
+				keepInts("Pids() after RemoveElementaryStreams", p.Pids())
+				r = VL()
+			case 2:
+				// hold the list ElementaryStreams() returns from now on.  NOT generated: on the unchanged tree the getter
+				// returns the internal slice and RemoveElementaryStreams shifts it in place (notes/aliasing.md, A2)
+				keepList("ElementaryStreams()", p.ElementaryStreams())
+				r = VL()
+			default:
+				return VBad()
+			}
+			out = append(out, VL(r, twice("PMT getters", func() Val { return vpmt(p) })))
+		}
+		return VOk(Val{K: 2, L: out})
+	})
+	// pmt.acchist [ [pkt*]* ]: several PMTs gathered one after the other through ONE accumulator
+	// (NewAccumulator(PmtAccumulatorDoneFunc); Reset between tables), each decoded from acc.Bytes() and KEPT while the
+	// accumulator is reused.  reply [ [ [errcode*] respmt ]* [respmt*] ]: per table the WritePacket outcomes and the
+	// decoded PMT right away, then every PMT once more at the end.
+	register("pmt.acchist", func(a []Val) Val {
+		acc := packet.NewAccumulator(psi.PmtAccumulatorDoneFunc)
+		var pmts []psi.PMT
+		out := []Val{}
+		for ti, tv := range a[0].L {
+			if ti > 0 {
+				acc.Reset()
+			}
+			codes := []Val{}
+			for _, pv := range tv.L {
+				if pv.K != 1 || len(pv.B) != packet.PacketSize {
+					return VBad()
+				}
+				var pkt packet.Packet
+				copy(pkt[:], pv.B)
+				_, err := acc.WritePacket(&pkt)
+				c := 0
+				if err != nil {
+					c = ioErrCode(err)
+				}
+				codes = append(codes, VI(int64(c)))
+			}
+			b := keep(fmt.Sprintf("acc.Bytes() of table %d", ti), acc.Bytes())
+			keepPkts(fmt.Sprintf("acc.Packets() of table %d", ti), acc.Packets())
+			p, err := psi.NewPMT(b)
+			if err == nil {
+				keepPMT(fmt.Sprintf("PMT %d decoded from acc.Bytes()", ti), p)
+			} else {
+				p = nil
+			}
+			pmts = append(pmts, p)
+			out = append(out, VL(Val{K: 2, L: codes}, resPMT(p, err)))
+		}
+		final := []Val{}
+		for _, p := range pmts {
+			if p == nil {
+				final = append(final, VL())
+			} else {
+				final = append(final, VL(vpmt(p)))
+			}
+		}
+		out = append(out, Val{K: 2, L: final})
+		return Val{K: 2, L: out}
+	})
 }
